@@ -1,4 +1,150 @@
+// Kani harnesses for datafusion/execution/src/memory_pool/pool.rs (property C17).
 #[allow(unused_qualifications, unused_imports, dead_code, clippy::all)]
 mod verif_kani {
     use super::*;
+    use std::sync::Arc;
+
+    // parking_lot's contended paths are unreachable without threads (and make kani-compiler ICE)
+    fn stub_lock_slow(_m: &parking_lot::RawMutex, _t: Option<std::time::Instant>) -> bool { kani::assume(false); true }
+    fn stub_unlock_slow(_m: &parking_lot::RawMutex, _f: bool) { kani::assume(false); }
+    // error text is opaque
+    fn stub_err<P: MemoryPool>(_r: &MemoryReservation, _additional: usize, _available: usize, _pool: &P) -> DataFusionError {
+        DataFusionError::ResourcesExhausted(String::new())
+    }
+    const HALF: usize = usize::MAX / 2;
+
+    /// GreedyMemoryPool: Ok <=> used + a <= pool_size; Ok => used' = used + a; Err => used' = used
+    #[kani::proof]
+    #[kani::unwind(3)]
+    #[kani::stub(insufficient_capacity_err, stub_err)]
+    fn c17_greedy_try_grow() {
+        let pool_size: usize = kani::any();
+        let g = Arc::new(GreedyMemoryPool { pool_size, used: AtomicUsize::new(0) });
+        let pool: Arc<dyn MemoryPool> = g.clone();
+        let r = MemoryConsumer::new("c").register(&pool);
+        let used0: usize = kani::any();
+        let add: usize = kani::any();
+        kani::assume(used0 <= HALF && add <= HALF);
+        g.used.store(used0, Ordering::Relaxed);
+        let res = g.try_grow(&r, add);
+        let ok = res.is_ok();
+        std::mem::forget(res);
+        let used1 = g.used.load(Ordering::Relaxed);
+        assert!(ok == (used0 + add <= pool_size), "C17.greedy.try_grow.granted_iff_within_limit");
+        if ok {
+            assert!(used1 == used0 + add, "C17.greedy.try_grow.ok_adds_exactly");
+            assert!(used1 <= pool_size, "C17.greedy.try_grow.never_beyond_limit");
+        } else {
+            assert!(used1 == used0, "C17.greedy.try_grow.failed_attempt_changes_nothing");
+        }
+        assert!(g.reserved() == used1, "C17.greedy.reserved_reports_used");
+        kani::cover!(ok && add > 0);
+        kani::cover!(!ok);
+        std::mem::forget(r);
+    }
+
+    /// infallible grow / shrink of Greedy and Unbounded: exact deltas
+    #[kani::proof]
+    #[kani::unwind(3)]
+    fn c17_greedy_unbounded_grow_shrink() {
+        let pool_size: usize = kani::any();
+        let g = Arc::new(GreedyMemoryPool { pool_size, used: AtomicUsize::new(0) });
+        let pool: Arc<dyn MemoryPool> = g.clone();
+        let r = MemoryConsumer::new("c").register(&pool);
+        let used0: usize = kani::any();
+        let a: usize = kani::any();
+        let s: usize = kani::any();
+        kani::assume(used0 <= HALF / 2 && a <= HALF / 2 && s <= used0 + a);
+        g.used.store(used0, Ordering::Relaxed);
+        g.grow(&r, a);
+        assert!(g.reserved() == used0 + a, "C17.greedy.grow.exact");
+        g.shrink(&r, s);
+        assert!(g.reserved() == used0 + a - s, "C17.greedy.shrink.exact");
+
+        let u = UnboundedMemoryPool { used: AtomicUsize::new(used0) };
+        u.grow(&r, a);
+        assert!(u.reserved() == used0 + a, "C17.unbounded.grow.exact");
+        let res = u.try_grow(&r, a);
+        assert!(res.is_ok(), "C17.unbounded.try_grow.always_ok");
+        std::mem::forget(res);
+        assert!(u.reserved() == used0 + a + a, "C17.unbounded.try_grow.exact");
+        u.shrink(&r, s);
+        assert!(u.reserved() == used0 + a + a - s, "C17.unbounded.shrink.exact");
+        kani::cover!(a > 0 && s > 0);
+        std::mem::forget(r);
+    }
+
+    /// TrackedConsumer: exact reserved, peak >= reserved and peak = max(old peak, new reserved)
+    #[kani::proof]
+    #[kani::unwind(3)]
+    fn c17_tracked_consumer() {
+        let r0: usize = kani::any();
+        let p0: usize = kani::any();
+        let a: usize = kani::any();
+        let s: usize = kani::any();
+        kani::assume(r0 <= HALF && a <= HALF && p0 >= r0 && s <= r0 + a);
+        let t = TrackedConsumer { name: String::new(), can_spill: kani::any(), reserved: AtomicUsize::new(r0), peak: AtomicUsize::new(p0) };
+        t.grow(a);
+        assert!(t.reserved() == r0 + a, "C17.tracked.grow.exact");
+        assert!(t.peak() == if p0 >= r0 + a { p0 } else { r0 + a }, "C17.tracked.peak_is_running_max");
+        assert!(t.peak() >= t.reserved(), "C17.tracked.peak_at_least_current");
+        let p1 = t.peak();
+        t.shrink(s);
+        assert!(t.reserved() == r0 + a - s, "C17.tracked.shrink.exact");
+        assert!(t.peak() == p1 && t.peak() >= t.reserved(), "C17.tracked.shrink_keeps_peak");
+        kani::cover!(p0 < r0 + a);
+        std::mem::forget(t);
+    }
+
+    /// bounded twin of the Verus unit (cross-check of rewrite R10 on the unextracted code):
+    /// FairSpillPool::try_grow on the real crate, all counters < 2^10 so that the division is tractable
+    #[kani::proof]
+    #[kani::unwind(3)]
+    #[kani::stub(parking_lot::RawMutex::lock_slow, stub_lock_slow)]
+    #[kani::stub(parking_lot::RawMutex::unlock_slow, stub_unlock_slow)]
+    #[kani::stub(insufficient_capacity_err, stub_err)]
+    fn c17_fair_try_grow_narrow_bounded() {
+        const B: usize = 1 << 10;
+        let pool_size: usize = kani::any();
+        let fair = Arc::new(FairSpillPool::new(pool_size));
+        let pool: Arc<dyn MemoryPool> = fair.clone();
+        let can_spill: bool = kani::any();
+        let r = MemoryConsumer::new("c").with_can_spill(can_spill).register(&pool);
+        let ns: usize = kani::any();
+        let sp: usize = kani::any();
+        let un: usize = kani::any();
+        let sz: usize = kani::any();
+        let add: usize = kani::any();
+        kani::assume(pool_size < B && ns < 8 && sp < B && un < B && sz < B && add < B);
+        kani::assume(ns >= 1 || !can_spill);
+        {
+            let mut st = fair.state.lock();
+            st.num_spill = ns;
+            st.spillable = sp;
+            st.unspillable = un;
+        }
+        r.size.store(sz, Ordering::Relaxed);
+        let res = fair.try_grow(&r, add);
+        let ok = res.is_ok();
+        std::mem::forget(res);
+        {
+            let st = fair.state.lock();
+            if ok {
+                assert!(st.num_spill == ns, "C17.fair.try_grow.ok_keeps_num_spill");
+                if can_spill {
+                    assert!(st.spillable == sp + add && st.unspillable == un, "C17.fair.try_grow.ok_spillable_delta");
+                    assert!((sz + add) * ns <= pool_size.saturating_sub(un), "C17.fair.try_grow.within_fair_share");
+                } else {
+                    assert!(st.unspillable == un + add && st.spillable == sp, "C17.fair.try_grow.ok_unspillable_delta");
+                    assert!(add == 0 || un + sp + add <= pool_size, "C17.fair.try_grow.within_limit");
+                }
+            } else {
+                assert!(st.spillable == sp && st.unspillable == un && st.num_spill == ns, "C17.fair.try_grow.failed_attempt_changes_nothing");
+            }
+        }
+        kani::cover!(ok && can_spill && add > 0);
+        kani::cover!(ok && !can_spill && add > 0);
+        kani::cover!(!ok);
+        std::mem::forget(r);
+    }
 }
